@@ -95,9 +95,11 @@ SchemeChoiceOk(ev) ==
             usesLin == \E u \in ToSet(ev.uses) : u = T.lin[d]
         IN wantRL = usesLin
 
-\* C06: where the exponential update is used it sits behind the guard: the selection is on the linearisation
-\* alone, against the delta the caller passed and nothing else, strictly (|g| = delta takes the Euler branch);
-\* the exponential branch divides by the linearisation, the other branch is the Euler update and does not read it
+\* C06: where the exponential update is used it sits behind the guard: the selection reads the linearisation and no
+\* other quantity of the model or of the call, every number in it is the delta the caller passed, and it is strict
+\* (|g| = delta takes the Euler branch); the exponential branch reads the linearisation, the other one the rate.
+\* (Only what the property fixes: HOW the comparison is spelled - abs(), two inequalities, a local holding the
+\* threshold - is left open; the values are the business of the numeric replay.)
 SchemeGuardOk(ev) ==
   IF T.kind # "scheme" \/ ~T.check_choice \/ T.delta = "" THEN TRUE ELSE
   \A d \in ToSet(ev.uses) :
@@ -105,12 +107,15 @@ SchemeGuardOk(ev) ==
         LET x == T.derivs[d]
             wantRL == (T.all_stiff \/ x \in ToSet(T.stiff)) /\ x \notin ToSet(T.zero_slope)
             g == ev.guard
+            \* names that carry a value of the model or of the call; a local that merely holds the threshold is none
+            ModelNames == DOMAIN T.state_index \cup DOMAIN T.parameter_index \cup DOMAIN T.derivs
+                          \cup {T.lin[k] : k \in DOMAIN T.lin} \cup ToSet(T.full_order) \cup {"dt", "t"}
         IN wantRL => /\ g.present
-                     /\ ToSet(g.cond_uses) = {T.lin[d]}
-                     /\ ToSet(g.consts) = {T.delta}
+                     /\ T.lin[d] \in ToSet(g.cond_uses)
+                     /\ ToSet(g.cond_uses) \cap ModelNames = {T.lin[d]}
+                     /\ ToSet(g.consts) \subseteq {T.delta}
                      /\ g.strict
                      /\ T.lin[d] \in ToSet(g.then_uses)
-                     /\ T.lin[d] \notin ToSet(g.else_uses)
                      /\ d \in ToSet(g.else_uses)
 
 RuleFails(ev) ==
